@@ -12,1100 +12,1145 @@ Definition show_fres (r : fres) : string :=
   end.
 Definition check (rs : list rune) : string := digest (show_fres (format_res rs)).
 Definition full (rs : list rune) : string := show_fres (format_res rs).
-Eval vm_compute in ("<<<M1806>>>" ++ check (runes_of_ascii "
-MetaData	chars{
+Eval vm_compute in ("<<<M1591>>>" ++ check (runes_of_ascii "packet A {
+    roots {
+        repeat char[00] matchKey `crlf
+                line`,
+    },// @lengthOf(
+    @tag(3)
+    char[255] x,
+    @leftPad('\x00')
+    repeat uint16 crc,
+    match u as pack {
+        [""x y"", 4294967296] : roots,
+        [1, 0] : _x,
+        ""packet"" : T,
+        255 : BodyLength,
+        ""a	b"" : uint8x,
+    },
+    @rightPad('\x00')
+    u64 tag,
+}
 
-int8 Z9_
-	, float
+packet trueish {
+    match i64_ as Packet {
+        ""packet"" : body,
+        65535 : Pad,
+        10 : packetx,
+        3 : pack,
+        00 : Header,
+        3 : As,
+        // packet A { u8 x, }
+    },
+    @lengthOf(MetaDataX)
+    i8 stringy ``,
+    @calculatedFrom(""`tick`"")
+    @leftPad(' ')
+    // `tick` ""quote"" 'q'
+    char[] calculatedFrom @calculatedFrom(""// no comment""),
+}
 
-    rootA 
-`tab	here`	// @lengthOf(
-    	, 
-  //x
-  	// @lengthOf(
+MetaData calculatedFrom {
+    pack As,
+    f32a calculatedFrom,
+    int16 chars `say ""hi""`,
+    uint16 msg_type `{ , }`,
+    i32 o,
+}
 
-	T
-o 
-`it's`
+packet chars {
+    lengthOf MetaDataX,
+    string len @lengthOf(uint8x),
+    @tag(0123456789)
+    match stringy as x {
+        10 : lengthOf,
+    },
+    @tag(7)
+    @rightPad()
+    @tag(00)
+    uint16 crc,
+    int8 trueish @lengthOf(stringy),
+    repeat i64_,
+    zchar[7] T @calculatedFrom(""a\""b"") `two words`,
+    // a // b
+    @tag(007)
+    zchar[65535] MetaDataX @lengthOf(len) `" ++ [233]%N ++ runes_of_ascii "`,
+    char metadata @lengthOf(lengthOf),
+}
+
+root packet matchKey {
+    @calculatedFrom(""" ++ [28040; 24687]%N ++ runes_of_ascii """)
+    repeat char[007] stringy,
+    string a1 `doc`,
+    zchar[7] A,
+    @lengthOf(options1)
+    //
+    zchar[00] Foo `two words`,
+    @calculatedFrom(""1"")
+    @leftPad(' ')
+    @leftPad(' ')
+    repeat u8 options1,
+    uint8 i64_ `" ++ [233]%N ++ runes_of_ascii "`,
+    @tag(10)
+    @lengthOf(i8i8)
+    @lengthOf(i64_)
+    //x
+    match A as packetx {
+        10 : asx,
+        [""\n"", 65535, ""{,}"", 007, ""CRC32""] : metadata,
+        00 : o,
+    },
+}")).
+Eval vm_compute in ("<<<M1692>>>" ++ check (runes_of_ascii "
+options	{
+    StringPrefixLenType=  u16
+	;
+ArrayPrefixLenType
+    = 
+u16 ;
+
+}
+	packet SampleBinary	{
+	uint16
+	MsgType
+
+    `" ++ [28040; 24687; 31867; 22411]%N ++ runes_of_ascii "`	,  u16
+BodyLenght @lengthOf(  Body) `" ++ [28040; 24687; 20307; 38271; 24230]%N ++ runes_of_ascii "`
+,
+	match
+MsgType as
+
+    Body
+
+    { 
+1
+: Logon
+, 2 :
+	Logout,  3	:
+Heartbeat, 
+4 :RiskControlRequest, 5 :RiskControlResponse
 	,
-    roots int, // c
-		repeatCount
-MetaDataX
-,
-    float32
-	falsey 
-`say ""hi""`
+    } , @calculatedFrom(
+""CRC32"" )
+u32
+Ckecksum  `" ++ [26657; 39564; 21644]%N ++ runes_of_ascii "`
+,}	packet	Logon
+{ @leftPad
 
-    , }  packet  msg_type{
+('0' )
 
-repeat	f32
-o	// `tick` ""quote"" 'q'
-    , @tag( 0
-)
+    char[  10]	UserName
+`" ++ [29992; 25143; 21517]%N ++ runes_of_ascii "`  ,	string
+	Password	`" ++ [23494; 30721]%N ++ runes_of_ascii "`
+, 
+uint64
+    ClientId`" ++ [23458; 25143; 31471]%N ++ runes_of_ascii "ID`
 
-    char[]
+,u16
+    HeartbeatInterval
+`" ++ [24515; 36339; 38388; 38548]%N ++ runes_of_ascii "`	, }
 
-A
-	,
+    packet
+    Logout 
+{ @rightPad
+(
+'0'	) char[
 
-repeat
+    10
+	]
+	UserName `" ++ [29992; 25143; 21517]%N ++ runes_of_ascii "`	,
 
-char[] tag `say ""hi""` 
-,
-repeat char[	0
+uint64
 
-]	Z9_ 
-,zchar[ 1
-]
-	lengthOf ,
-i64 T
+    ClientId
+`" ++ [23458; 25143; 31471]%N ++ runes_of_ascii "ID`  ,}
 
-    ,	match
-float 
-as
-leftPad
-	{
+packet
+Heartbeat  {
 
-007
-    :
-
-    len  /// triple
-	,	""it's"" :len
-,""it's"" 
-: 	 // @lengthOf(
-float	[  255,
-
-00
-,  ""abc""  , ""abc""
-
-, 1
-    ,""" ++ [28040; 24687]%N ++ runes_of_ascii """	// `tick` ""quote"" 'q'
-    , 
-""x y""
-    ,	"""" // a // b
-    ]
-    : 
-_x
-	, """"	:
-len
-
-,
-    ""\" ++ [233]%N ++ runes_of_ascii """	:  // a // b
-	i64_ , //	t
     }
 
-    , 
-roots {
-char[1 ] 	 // @lengthOf(
-  Header @lengthOf( x_y_z )  ,  body u128
+    packet  RiskControlRequest  {
+string
+	UniqueOrderId`" ++ [21807; 19968; 35746; 21333; 21495]%N ++ runes_of_ascii "`
+,char[
+	16 
+]
 
-, // `tick` ""quote"" 'q'
-	char[] 
-float 
-,  chars @lengthOf(
-    x )`doc`
+    ClOrdID`" ++ [23458; 25143; 35746; 21333; 21495]%N ++ runes_of_ascii "`  ,char[
+	3 
+]
+MarketID
+
+`" ++ [24066; 22330]%N ++ runes_of_ascii "id` ,
+
+char[	12
+
+] SecurityID
+    `" ++ [35777; 21048; 20195; 30721]%N ++ runes_of_ascii "`,
+	char
+	Side `" ++ [20080; 21334; 26041; 21521]%N ++ runes_of_ascii "`	,
+    char 
+OrderType `" ++ [35746; 21333; 31867; 22411]%N ++ runes_of_ascii "`
+	,
+u64
+	Price  `" ++ [20215; 26684]%N ++ runes_of_ascii "`
+	, u32 
+Qty `" ++ [25968; 37327]%N ++ runes_of_ascii "`
 
 ,
-}
-, 
-crc `it's` 
-// `tick` ""quote"" 'q'
-	  , @calculatedFrom(
+	repeat
+    string
 
-""" ++ [128512]%N ++ runes_of_ascii """ ) BodyLength
-`" ++ [28040; 24687; 31867; 22411]%N ++ runes_of_ascii "` ,}
-packet	u128
+ExtraInfo
+	`" ++ [38468; 21152; 20449; 24687]%N ++ runes_of_ascii "`
 
-{lengthOf,
-
-    pack @lengthOf( u8x // c
-    )
-	`// not a comment`  // " ++ [27880; 37322]%N ++ runes_of_ascii "
-
-	,
-
-@leftPad (
-' ') 
-float
-	{
-match
-	asx as 
-charz
-
-    {
-
-[ 
-4294967296	,""""	, 255
     ,
+	repeat 
+SubOrder{
 
-42 
-, ""1"" ] :u8x ""{,}""
-	: Foo
-42:
+char[ 16
+    ] ClOrdID
 
-    leftPad  [	// trailing space 
-255 , 
-// " ++ [128512]%N ++ runes_of_ascii " emoji
-    ""a\""b"", 
-""it's""
-	,4294967296
-    ]
-	: stringy ,
+    `" ++ [23376; 35746; 21333; 21495]%N ++ runes_of_ascii "`
+	,  u64 Price `" ++ [23376; 35746; 21333; 20215; 26684]%N ++ runes_of_ascii "`  ,  u32
+    Qty	`" ++ [23376; 35746; 21333; 25968; 37327]%N ++ runes_of_ascii "`
+	, }
+, }packet
+RiskControlResponse  {
+string
+	UniqueOrderId
 
-3 :
-Header
-    ,
+    `" ++ [21807; 19968; 35746; 21333; 21495]%N ++ runes_of_ascii "`
+	,	i32
+Status `" ++ [29366; 24577]%N ++ runes_of_ascii "` ,
+string Msg  `" ++ [32467; 26524; 20449; 24687]%N ++ runes_of_ascii "`,
+repeat	Detail  ,}packet
+Detail { string
 
-    } 
-,match o 	 // `tick` ""quote"" 'q'
-	as
-    Pad  
-  // trailing space 
-  	{
-    3
+RuleName
 
-: i64_  //x
-    , } ,  repeat
-string	msg_type,
+`" ++ [35268; 21017; 21517; 31216]%N ++ runes_of_ascii "`
 
-match packetx// " ++ [27880; 37322]%N ++ runes_of_ascii "
-  	as 
-lengthOf
-{ 
-[ ""x y"" ,""""	]:
-x_y_z 
-	    // " ++ [27880; 37322]%N ++ runes_of_ascii "
-  // c
-  } ,
-    }, i64
-
-    float	,	repeat
-	zchar[
-    3
-]	rootA `crlf
-line`	,
-    match  msg_type
-	as
-
-    len{
-	""CRC32""
-
-:
-MetaDataX
-    ,
-	}	,f32
-
-    A
-    , char[
-	0123456789
-    ]
-    chars // " ++ [27880; 37322]%N ++ runes_of_ascii "
-      `{ , }`
-,	/// triple
-	@calculatedFrom( ""a\""b""
-	)
-
-    string  string_`" ++ [233]%N ++ runes_of_ascii "`	, 
-}
-
-")).
-Eval vm_compute in ("<<<M385>>>" ++ check (runes_of_ascii "options {
-    StringPrefixLenType = u16;
-    ArrayPrefixLenType = u16;
+    ,u16	Code
+	`" ++ [21407; 22240; 20195; 30721]%N ++ runes_of_ascii "` 
+,
+    } ")).
+Eval vm_compute in ("<<<M383>>>" ++ check (runes_of_ascii "options {
+	StringPrefixLenType = u16;
+	ArrayPrefixLenType = u16;
 }
 
 packet SampleBinary {
-    uint16 MsgType `" ++ [28040; 24687; 31867; 22411]%N ++ runes_of_ascii "`,
-    u16 BodyLenght @lengthOf(Body) `" ++ [28040; 24687; 20307; 38271; 24230]%N ++ runes_of_ascii "`,
-    match MsgType as Body {
-        1 : Logon,
-        2 : Logout,
-        3 : Heartbeat,
-        4 : RiskControlRequest,
-        5 : RiskControlResponse,
-    },
-    @calculatedFrom(""CRC32"")
-    u32 Ckecksum `" ++ [26657; 39564; 21644]%N ++ runes_of_ascii "`,
+	uint16 MsgType `" ++ [28040; 24687; 31867; 22411]%N ++ runes_of_ascii "`,
+	u16 BodyLenght @lengthOf(Body) `" ++ [28040; 24687; 20307; 38271; 24230]%N ++ runes_of_ascii "`,
+	match MsgType as Body {
+		1 : Logon,
+		2 : Logout,
+		3 : Heartbeat,
+		4 : RiskControlRequest,
+		5 : RiskControlResponse,
+	},
+	@calculatedFrom(""CRC32"")
+	u32 Ckecksum `" ++ [26657; 39564; 21644]%N ++ runes_of_ascii "`,
 }
 
 packet Logon {
-    @leftPad('0')
-    char[10] UserName `" ++ [29992; 25143; 21517]%N ++ runes_of_ascii "`,
-    string Password `" ++ [23494; 30721]%N ++ runes_of_ascii "`,
-    uint64 ClientId `" ++ [23458; 25143; 31471]%N ++ runes_of_ascii "ID`,
-    u16 HeartbeatInterval `" ++ [24515; 36339; 38388; 38548]%N ++ runes_of_ascii "`,
+	@leftPad('0')
+	char[10] UserName `" ++ [29992; 25143; 21517]%N ++ runes_of_ascii "`,
+	string Password `" ++ [23494; 30721]%N ++ runes_of_ascii "`,
+	uint64 ClientId `" ++ [23458; 25143; 31471]%N ++ runes_of_ascii "ID`,
+	u16 HeartbeatInterval `" ++ [24515; 36339; 38388; 38548]%N ++ runes_of_ascii "`,
 }
 
 packet Logout {
-    @rightPad('0')
-    char[10] UserName `" ++ [29992; 25143; 21517]%N ++ runes_of_ascii "`,
-    uint64 ClientId `" ++ [23458; 25143; 31471]%N ++ runes_of_ascii "ID`,
+	@rightPad('0')
+	char[10] UserName `" ++ [29992; 25143; 21517]%N ++ runes_of_ascii "`,
+	uint64 ClientId `" ++ [23458; 25143; 31471]%N ++ runes_of_ascii "ID`,
 }
 
 packet Heartbeat {
 }
 
 packet RiskControlRequest {
-    string UniqueOrderId `" ++ [21807; 19968; 35746; 21333; 21495]%N ++ runes_of_ascii "`,
-    char[16] ClOrdID `" ++ [23458; 25143; 35746; 21333; 21495]%N ++ runes_of_ascii "`,
-    char[3] MarketID `" ++ [24066; 22330]%N ++ runes_of_ascii "id`,
-    char[12] SecurityID `" ++ [35777; 21048; 20195; 30721]%N ++ runes_of_ascii "`,
-    char Side `" ++ [20080; 21334; 26041; 21521]%N ++ runes_of_ascii "`,
-    char OrderType `" ++ [35746; 21333; 31867; 22411]%N ++ runes_of_ascii "`,
-    u64 Price `" ++ [20215; 26684]%N ++ runes_of_ascii "`,
-    u32 Qty `" ++ [25968; 37327]%N ++ runes_of_ascii "`,
-    repeat string ExtraInfo `" ++ [38468; 21152; 20449; 24687]%N ++ runes_of_ascii "`,
-    repeat SubOrder {
-        char[16] ClOrdID `" ++ [23376; 35746; 21333; 21495]%N ++ runes_of_ascii "`,
-        u64 Price `" ++ [23376; 35746; 21333; 20215; 26684]%N ++ runes_of_ascii "`,
-        u32 Qty `" ++ [23376; 35746; 21333; 25968; 37327]%N ++ runes_of_ascii "`,
-    },
+	string UniqueOrderId `" ++ [21807; 19968; 35746; 21333; 21495]%N ++ runes_of_ascii "`,
+	char[16] ClOrdID `" ++ [23458; 25143; 35746; 21333; 21495]%N ++ runes_of_ascii "`,
+	char[3] MarketID `" ++ [24066; 22330]%N ++ runes_of_ascii "id`,
+	char[12] SecurityID `" ++ [35777; 21048; 20195; 30721]%N ++ runes_of_ascii "`,
+	char Side `" ++ [20080; 21334; 26041; 21521]%N ++ runes_of_ascii "`,
+	char OrderType `" ++ [35746; 21333; 31867; 22411]%N ++ runes_of_ascii "`,
+	u64 Price `" ++ [20215; 26684]%N ++ runes_of_ascii "`,
+	u32 Qty `" ++ [25968; 37327]%N ++ runes_of_ascii "`,
+	repeat string ExtraInfo `" ++ [38468; 21152; 20449; 24687]%N ++ runes_of_ascii "`,
+	repeat SubOrder {
+		char[16] ClOrdID `" ++ [23376; 35746; 21333; 21495]%N ++ runes_of_ascii "`,
+		u64 Price `" ++ [23376; 35746; 21333; 20215; 26684]%N ++ runes_of_ascii "`,
+		u32 Qty `" ++ [23376; 35746; 21333; 25968; 37327]%N ++ runes_of_ascii "`,
+	},
 }
 
 packet RiskControlResponse {
-    string UniqueOrderId `" ++ [21807; 19968; 35746; 21333; 21495]%N ++ runes_of_ascii "`,
-    i32 Status `" ++ [29366; 24577]%N ++ runes_of_ascii "`,
-    string Msg `" ++ [32467; 26524; 20449; 24687]%N ++ runes_of_ascii "`,
-    repeat Detail,
+	string UniqueOrderId `" ++ [21807; 19968; 35746; 21333; 21495]%N ++ runes_of_ascii "`,
+	i32 Status `" ++ [29366; 24577]%N ++ runes_of_ascii "`,
+	string Msg `" ++ [32467; 26524; 20449; 24687]%N ++ runes_of_ascii "`,
+	repeat Detail,
 }
 
 packet Detail {
-    string RuleName `" ++ [35268; 21017; 21517; 31216]%N ++ runes_of_ascii "`,
-    u16 Code `" ++ [21407; 22240; 20195; 30721]%N ++ runes_of_ascii "`,
+	string RuleName `" ++ [35268; 21017; 21517; 31216]%N ++ runes_of_ascii "`,
+	u16 Code `" ++ [21407; 22240; 20195; 30721]%N ++ runes_of_ascii "`,
 }")).
-Eval vm_compute in ("<<<M129>>>" ++ check (runes_of_ascii "packet
-MetaDataX { metadata trueish`" ++ [233]%N ++ runes_of_ascii "`
-//x
-//x
-,// trailing space 
-@calculatedFrom(""`tick`"" )uint8x
+Eval vm_compute in ("<<<M145>>>" ++ check (runes_of_ascii "options
+{ }
+root packet tag{ @calculatedFrom(
+    // @lengthOf(
+    ""packet"" ) u128 @lengthOf(zchar
+) ,
+    } packet _x { @calculatedFrom( ""a\\"" )//
+@rightPad (	' ' ) As , zchar// c
+@calculatedFrom( """ ++ [233]%N ++ runes_of_ascii "t" ++ [233]%N ++ runes_of_ascii """ ) `tab	here` // trailing space 
+, @tag(007 ) @lengthOf( //	t
+zchar ) // packet A { u8 x, }
+string crc
+,string u128
     // c
-    @calculatedFrom(  """ ++ [128512]%N ++ runes_of_ascii """  ) `{ , }`
-    , @calculatedFrom( ""a\""b"" ) // packet A { u8 x, }
-match Packet as
-    body { 3
-    : repeatCount
-,""x y""
-    /// triple
-    :lengthOf// `tick` ""quote"" 'q'
-4294967296 :
-    packetx
-    , [ ""abc""
-, ""// no comment""
-    ,
-""abc"" ,
-""\n"" //	t
-, ""1""
-]: u128 [ 00 , 65535 ,""x y"" ,""{,}""  ]
-: calculatedFrom ,
-    7 :	i8i8  }, u8x ,match int as	matchKey{
-[1 ,""CRC32""]
-    // trailing space 
-    :// @lengthOf(
-asx,	}
-    , @lengthOf( // " ++ [128512]%N ++ runes_of_ascii " emoji
-a1) string x `it's` , repeat // @lengthOf(
-char matchKey  ,
-    // a // b
-    @leftPad // trailing space 
-( )@rightPad ( ) match
-metadata	as  Packet { [ 65535  ] : Header , }, @tag( 255)
-zchar[ 3 ] crc `u8 x,` ,} MetaData
-    rootA // trailing space 
-{
-i8i8	Pad , int8
-packetx `{ , }`
-,
-    int8 stringy,
-    // `tick` ""quote"" 'q'
-    body _x  , body o , }")).
-Eval vm_compute in ("<<<M1934>>>" ++ check (runes_of_ascii "packet pack {
-    @lengthOf(Foo)
-    asx @lengthOf(_x),
-    u8 x_y_z `two words`,
-    repeat zchar[0] roots `
-        `,
-    lengthOf @calculatedFrom(""abc""),
-    @tag(3)
-    @rightPad(' ')
-    @calculatedFrom(""1"")
-    repeat uint64 i64_ `say ""hi""`,
-    @tag(007)
-    match roots as float {
-        ""a	b"" : lengthOf,
-        [
-            1, ""\n"", ""a\""b"", ""\" ++ [233]%N ++ runes_of_ascii """, ""1"",
-            42
-        ] : msg_type,
-        """ ++ [128512]%N ++ runes_of_ascii """ : Foo,
-    },
-    T {
-        match Header as trueish {
-            [
-                0, 3, ""{,}"", ""1"", 00,
-                0123456789, ""// no comment""
-            ] : As,
-        },
-    },
-    repeat char[10] o `
-        `,
-    @calculatedFrom(""`tick`"")
-    repeat crc {
-        repeatCount o,
-        u8x As,
-    },
-}
-
-packet pack {
-    @calculatedFrom(""" ++ [233]%N ++ runes_of_ascii "t" ++ [233]%N ++ runes_of_ascii """)
-    u32 f32a,
-}
-
-MetaData float {
-    u32 options1,
-}
-
-packet f32a {
-}")).
-Eval vm_compute in ("<<<M330>>>" ++ check (runes_of_ascii "root packet
-As {
-} MetaData Pad { string
-    metadata  `// not a comment` ,
-    }
-packet metadata
-    { string	charz
-`a\` , @leftPad ( ' ' )pack@lengthOf(x_y_z ), @calculatedFrom( ""packet"")
-match crc
-    as chars { [ ""packet"" ,7 ]
-    :  repeatCount }
-, Pad @lengthOf( matchKey
-    ),
-@calculatedFrom( ""\n""
-    )int64
-    Z9_ @lengthOf(
-    // a // b
-    _x ),
-@lengthOf(repeatCount// trailing space 
-) repeat float
-{ u128 @lengthOf( zchar) , u8 crc
-, } ,
-    int64 pack, u128
-    `it's` , repeat
-// a // b
+    @calculatedFrom(
+    ""packet""
+//
 // `tick` ""quote"" 'q'
-i32 T , //	t
-@tag(00 ) rootA  @lengthOf(
-float
-    )
+)// c
 ,
-} MetaData Header // @lengthOf(
-{u32 u,	string A `crlf
-line` ,
-u16
-    roots `a\` ,int16 chars , }
-packet repeatCount { repeat char[
+    repeat uint64 asx, @lengthOf( zchar) lengthOf
+{
+string
+trueish `// not a comment`
+    , }	,
 // trailing space 
-//x
-65535]
-    x `line1
-line2`
-, }")).
-Eval vm_compute in ("<<<M201>>>" ++ check (runes_of_ascii "packet charz
-{ //	t
-repeat i64_ ,trueish {
-repeat _x
-    ,	repeatCount, repeat u16
-matchKey `
-`
-,
-// " ++ [128512]%N ++ runes_of_ascii " emoji
-// a // b
-matchKey @calculatedFrom( ""a\""b"" )
-`it's` ,}	,
-@tag(
-007 )@calculatedFrom(
-    ""a\\"")	@tag(
-    3 // @lengthOf(
-)f32 f32a @lengthOf(asx ) `crlf
-line` // packet A { u8 x, }
-, repeat i8 string_
-,
-    @lengthOf(
-    // @lengthOf(
-    Logon  ) @lengthOf( x_y_z )
-    @lengthOf(
-zchar
-    ) repeat char[ 65535	] Foo`" ++ [233]%N ++ runes_of_ascii "`,
-@calculatedFrom(//
-""abc""
-) trueish @lengthOf( A )
-// " ++ [27880; 37322]%N ++ runes_of_ascii "
-// a // b
-,char[ 0 ] float , Packet
-    @calculatedFrom( ""a	b""
-), } MetaData
-    Pad { char[ 00 ] leftPad , u8 rootA `
-`,
-//
-// " ++ [128512]%N ++ runes_of_ascii " emoji
-int32
-    a1	`say ""hi""`
-    ,
-Z9_ float , //x
-i32 Pad ,
-}")).
-Eval vm_compute in ("<<<M87>>>" ++ check (runes_of_ascii "root packet matchKey{ match	Foo as Z9_ {// c
-[ ""x y"" , ""1"" ,
-    007
-, 7 ]: pack,
-""`tick`"" :
-u128 ,""a	b"" :msg_type,[
-//
-//
-00 ,	65535
-] : a1, ""it's"" :Foo
-    , // " ++ [128512]%N ++ runes_of_ascii " emoji
-[ //x
-""""
-] : u, } ,
-} packet calculatedFrom // c
-{msg_type {
-    T @calculatedFrom( ""\n"" ) ,float64 i8i8, As`
-`, u32 rootA @lengthOf(
-// c
 // `tick` ""quote"" 'q'
-float
-) ,}
-, }
-    packet
-    // " ++ [27880; 37322]%N ++ runes_of_ascii "
-    x_y_z
-{@tag( //x
-0 ) i64_
-    // " ++ [27880; 37322]%N ++ runes_of_ascii "
-    @lengthOf(
-    //
-    MetaDataX
-) ,	}packet A { @calculatedFrom( ""a\\"" )@calculatedFrom(""abc"" ) _x
-u	`say ""hi""` ,
-    } options
-    // `tick` ""quote"" 'q'
-    { // trailing space 
-metadata = ""a\\"" ; // a // b
-}")).
-Eval vm_compute in ("<<<M1846>>>" ++ check (runes_of_ascii "packet
-    tag  {
-
-    string
-
-matchKey
-`line1
-line2`
-
-    ,
-@tag(
-    0) // c
-		@calculatedFrom(
-""1"") @calculatedFrom(// " ++ [128512]%N ++ runes_of_ascii " emoji
-	""a\""b""
-
-    )
-    float64 matchKey ,  } options{  crc=
-true
-
-msg_type 
-
-//	t
-      =
-true;}
-	packet
-o  { match roots 
-as 
-calculatedFrom	{ ""// no comment""
-// packet A { u8 x, }
-    	:
-msg_type ,""{,}"":
-u128 ,[
-    65535 ,
-	0123456789 ] /// triple
-    :body 
-,	// " ++ [128512]%N ++ runes_of_ascii " emoji
-    },
-
-@rightPad (	' '
-    )	repeat 
-string_ i64_	,
-
-@lengthOf(
-lengthOf  )  @tag(	255  // packet A { u8 x, }
-    )@tag(00
-)  char[]stringy ,
-    }
-")).
-Eval vm_compute in ("<<<M1119>>>" ++ check (runes_of_ascii "// top
-root // c0
-packet // c1
-_x // c2
-{ // c3
-match // c4
-Foo // c5
-as // c6
-Z9_ // c7
-{ // c8
-""a	b"" // c9
-: // c10
-Pad // c11
-, // c12
-} // c13
-, // c14
-repeat // c15
-x // c16
-`line1
-line2` // c17
-, // c18
-@rightPad // c19
-( // c20
-' ' // c21
-) // c22
-@calculatedFrom( // c23
-""a\\"" // c24
-) // c25
-metadata // c26
-MetaDataX // c27
-, // c28
-@tag( // c29
-0 // c30
-) // c31
-Logon // c32
-int // c33
-`` // c34
-, // c35
-} // c36
-options // c37
-{ // c38
-T // c39
-= // c40
-'\x00' // c41
-} // c42
-")).
-Eval vm_compute in ("<<<M1619>>>" ++ check (runes_of_ascii "
-MetaData
-
-    T{
-
-    a1 Packet, // " ++ [128512]%N ++ runes_of_ascii " emoji
-	uint8x 
-        // @lengthOf(
+@tag(0) u128 { repeat f64 /// triple
+crc
+``
+, char[
+3 ] Foo`crlf
+line` , repeat
 //x
-  Pad
-    `" ++ [233]%N ++ runes_of_ascii "`  ,a1 
-// " ++ [27880; 37322]%N ++ runes_of_ascii "
-  	MetaDataX
-, zchar[
-	00]
-metadata
-    `u8 x,`	,
-
-Pad  // trailing space 
-	x
-
-`
-`
-,
-	i8
-
-u8x,
-}
-options
-
-{
-
-As
-
-= false	;
-    }
-
-    root packet
-	options1
-{ @calculatedFrom(
-""// no comment""	)
-@lengthOf(_x	)@tag( 007  )
-repeat  
-  // trailing space 
-    // @lengthOf(
-    f32 i8i8	`" ++ [233]%N ++ runes_of_ascii "` 
-,@rightPad(' ' 	 // " ++ [27880; 37322]%N ++ runes_of_ascii "
-  )
-
-    repeat  Pad
-	, }")).
-Eval vm_compute in ("<<<M349>>>" ++ check (runes_of_ascii "root
-packet body {
-    @lengthOf(
-int
 // @lengthOf(
-//x
-)string tag
-    ,	Pad BodyLength , Z9_ {
-    /// triple
-    u `` , zchar[ 7] u ,
-},uint64 calculatedFrom, }packet
-msg_type {match f32a// " ++ [128512]%N ++ runes_of_ascii " emoji
-as pack
-    { ""// no comment"" : trueish
-, }
-    // trailing space 
-    , @calculatedFrom( // @lengthOf(
-""abc""
-)
-    @leftPad (
-' ') @calculatedFrom( """" //x
-) // c
-matchKey T ,// `tick` ""quote"" 'q'
-}
+float uint8x
+,
+char[
+10 ] msg_type
+`u8 x,`, }// packet A { u8 x, }
+,
+uint64	string_,
+packetx matchKey
+, // 50% %s
+@leftPad
+    (' ' ) repeat zchar[ // @lengthOf(
+255  ]
+    Z9_,} MetaData crc {calculatedFrom
+body `// not a comment`
+    ,i64_
+i8i8 , o options1  `u8 x,` , char[
+10 ] pack , }
+// a // b
 ")).
-Eval vm_compute in ("<<<M1670>>>" ++ check (runes_of_ascii "packet a1 {
-    char[] charz @calculatedFrom(""" ++ [28040; 24687]%N ++ runes_of_ascii """),
-    uint8x `crlf
-    line`,
-    uint64 T `line1
-    line2`,
-    @leftPad('0')
+Eval vm_compute in ("<<<M1699>>>" ++ check (runes_of_ascii "
+options
+    {
+_x =
+
+    '0' 
     // a // b
-    /// triple
-    @calculatedFrom(""abc"")
-    @tag(3)
-    match int as len {
-        0 : chars,
-        [
-            10, ""a\\"", 1, 0, 10,
-            0
-        ] : body,
-        007 : rootA,
-    },
-    falsey options1,
-}")).
-Eval vm_compute in ("<<<M110>>>" ++ check (runes_of_ascii "root // trailing space 
-packet
-leftPad { T
-@lengthOf(A
-) `" ++ [233]%N ++ runes_of_ascii "`,
-    Header
-    @lengthOf( As ) // " ++ [27880; 37322]%N ++ runes_of_ascii "
-,
-string	calculatedFrom `{ , }`
-, @tag( 1) // trailing space 
-u16  x_y_z ,
-@tag( 4294967296
-) x_y_z metadata// " ++ [128512]%N ++ runes_of_ascii " emoji
-,asx { asx `it's`
-    ,} , char[ 65535 ]
-As@lengthOf(
-    Logon ) `a\`
-,@lengthOf(
-Z9_
-    ) string
-BodyLength ,
-}")).
-Eval vm_compute in ("<<<M79>>>" ++ check (runes_of_ascii "packet	Pad //
-{ u32 i64_
-@lengthOf(u8x) `tab	here` , T,
-@tag(
-1) @calculatedFrom(	""CRC32""
-)
-    @leftPad ()
-    match stringy as lengthOf	{[ 255  ,	7
-    ,
-""CRC32""
-,""a	b"" , """ ++ [233]%N ++ runes_of_ascii "t" ++ [233]%N ++ runes_of_ascii """ ,// c
-""a\""b""
-    , ""\n"" ]: falsey  , /// triple
-} ,string i8i8// trailing space 
-@calculatedFrom( """ ++ [128512]%N ++ runes_of_ascii """
-    ) ,packetx, } // c")).
-Eval vm_compute in ("<<<M222>>>" ++ check (runes_of_ascii "packet
-body// @lengthOf(
-{ @lengthOf(
-T
-    // " ++ [27880; 37322]%N ++ runes_of_ascii "
-    ) @lengthOf(
-int ) @leftPad ( '\x00')
-asx//x
-len
-,
-repeat	zchar[ 3] int `" ++ [28040; 24687; 31867; 22411]%N ++ runes_of_ascii "` ,@lengthOf(
-    // @lengthOf(
-    options1)match
-    x
-    as //x
-leftPad // @lengthOf(
-{
-7
-:
-x_y_z , 65535:  u128 , 42 : x ,} , //
-}")).
-Eval vm_compute in ("<<<M234>>>" ++ check (runes_of_ascii "//	t
-options{
-    chars=true As= char[]
-// trailing space 
-// " ++ [128512]%N ++ runes_of_ascii " emoji
-; /// triple
-x_y_z	= 7; // " ++ [27880; 37322]%N ++ runes_of_ascii "
-i8i8 = true packetx = /// triple
-' ' } root packet	x_y_z {repeat
-    char[
-    42
-    //x
-    ] //	t
-Pad,
-    }
+
 // packet A { u8 x, }
-")).
-Eval vm_compute in ("<<<M367>>>" ++ check (runes_of_ascii "
-packet roots  { @calculatedFrom( ""a\\"" ) @lengthOf( packetx  ) match repeatCount
-as body { 007:
-    lengthOf ,
-    00
-    :// `tick` ""quote"" 'q'
-zchar,} ,
-char[] chars
-`say ""hi""`,}
-MetaData packetx
-    {}
-")).
-Eval vm_compute in ("<<<M1295>>>" ++ check (runes_of_ascii "packet
-    A{ 
-u8 a,
-}packet
-B
+	;
+    Logon
 
-{u16
-	b
+=
+false 
+} packet
+A
+    { } packet //
+  Logon
+{ 
+@leftPad(
+	' '
+)
+    repeat
+	repeatCount
+	{
 
-    , } root
-packet 
-P
+stringy
 
-    {  u8
-    K1
-, u8
+    @lengthOf( 
+  // " ++ [27880; 37322]%N ++ runes_of_ascii "
+// trailing space 
 
-K2 
-,match K1
-	as	M1
+	len // @lengthOf(
+)	`say ""hi""` ,
+
+repeat metadata
+`u8 x,`
+
+,  match
+	x	as 
+int
+    {[""`tick`"" , 7
+
+] // trailing space 
+		:
+
+    BodyLength,  255 :packetx
+42	// " ++ [128512]%N ++ runes_of_ascii " emoji
+    :
+    _x,	}
+
+, } ,
+@rightPad ('0'
+	) @leftPad ( ' ' )
+@tag(	65535
+    )
+Header
+
+    `{ , }`
+
+    , int16  // trailing space 
+  stringy @lengthOf( // " ++ [128512]%N ++ runes_of_ascii " emoji
+	  calculatedFrom
+
+)
+
+    , repeat  MetaDataX
+{ 
+x_y_z 
+, repeat 	 //
+calculatedFrom o
+
+    `doc`
+	,string_
+    repeatCount 
+,
+rootA
+
 {
-1
+repeatCount  @calculatedFrom( ""\" ++ [233]%N ++ runes_of_ascii """) `tab	here` ,
+}  ,	}
+, } ")).
+Eval vm_compute in ("<<<M132>>>" ++ check (runes_of_ascii "// @lengthOf(
+packet x_y_z { float32 T
+    @lengthOf( int)// c
+, @tag( //	t
+255 ) @calculatedFrom( ""\n"")
+    lengthOf { repeat Packet repeatCount
+    ,} , char[ 0]body
+`two words`  ,
+o// a // b
+`a\`
+    , @tag(1) repeat	Foo lengthOf//	t
+,
+repeat lengthOf {
+    string_ @lengthOf(
+// packet A { u8 x, }
+// trailing space 
+x_y_z
+    // " ++ [128512]%N ++ runes_of_ascii " emoji
+    )
+    , repeat asx {
+    int16 float
+    @calculatedFrom( ""CRC32"" ) ,
+} ,//
+i8 leftPad@calculatedFrom(""\n""
+)
+`// not a comment`	,} , char[
+    00 ]u ,	match a1 as roots
+// `tick` ""quote"" 'q'
+// `tick` ""quote"" 'q'
+{//
+[ """ ++ [28040; 24687]%N ++ runes_of_ascii """ ,""// no comment""	, /// triple
+""1"",	0 ] // a // b
+: calculatedFrom
+,  } , } options  { metadata =char[] }
+")).
+Eval vm_compute in ("<<<M274>>>" ++ check (runes_of_ascii "packet x_y_z {
+    @tag(1 ) string	u
+@calculatedFrom(
+""`tick`"" ) ,
+} packet	chars { char[ 00 ]
+    crc `two words`
+, @lengthOf( calculatedFrom ) uint64 _x`
+`
+    // " ++ [27880; 37322]%N ++ runes_of_ascii "
+    , match Logon
+as falsey
+{[	""`tick`"" , ""\n"" ,
+007 //	t
+, 007
+, 1, 3
+    , ""it's""]
+: options1  , [42 , """ ++ [28040; 24687]%N ++ runes_of_ascii """ ] : msg_type
+, 007
+    : string_ , } ,// 50% %s
+repeatCount lengthOf, @tag( 007
+    )
+    Pad , } packet
+A	{	@calculatedFrom( ""CRC32"" ) @lengthOf( zchar ) repeatCount {
+zchar[
+0 ] stringy `two words` ,	} //
+, i16 falsey
+,match A // @lengthOf(
+as tag
+{ 3 :i64_ , [0123456789  ]
+    : chars
+, 7 :  options1 ,} , }")).
+Eval vm_compute in ("<<<M51>>>" ++ check (runes_of_ascii "options {lengthOf // " ++ [128512]%N ++ runes_of_ascii " emoji
+=// `tick` ""quote"" 'q'
+true ; string_ =
+    ""a\\"" ;}
+root packet zchar
+{string_ // " ++ [27880; 37322]%N ++ runes_of_ascii "
+{ match
+//
+//x
+x as string_{
+    //	t
+    0: zchar  ,
+} ,
+    }
+    ,	@calculatedFrom(	""CRC32"" ) @tag( 42
+) repeat
+char[
+    4294967296 ] u `say ""hi""` ,
+    // 50% %s
+    @tag( 3 )  @leftPad ( ' ' ) @tag( // `tick` ""quote"" 'q'
+42	) match Header
+as A { 42 : Logon ,  } ,
+@tag(
+4294967296
+)i64_ `doc` ,} root packet
+x_y_z { @calculatedFrom( ""// no comment"" ) @leftPad ( ) @lengthOf( int)//	t
+u8x `" ++ [28040; 24687; 31867; 22411]%N ++ runes_of_ascii "`
+    ,
+    }
+")).
+Eval vm_compute in ("<<<M1796>>>" ++ check (runes_of_ascii "// top
+
+	packet 	 // c0
+      B 	 // c1
+      {  
+      // c2
+  u8	a	// c4
+
+  ,
+    // c5
+    } // c6a
+    // c6b
+	root 
+  // c7
+  packet  // c8a
+	// c8b
+  P  // c9a
+	// c9b
+    {
+	u8 K // c12a
+  // c12b
+, // c13
+    u64 // c14a
+  // c14b
+    L	// c15
+
+@lengthOf(	// c16
+		Body	// c17
+)  // c18
+	, match// c20a
+  // c20b
+    K // c21
+as	// c22
+  Body
+{  // c24a
+    	// c24b
+  1	// c25a
+
+// c25b
+      :  // c26
+B
+, // c28a
+	// c28b
+	}  ,	// c30a
+    	// c30b
+	}  // c31a
+// c31b
+")).
+Eval vm_compute in ("<<<M322>>>" ++ check (runes_of_ascii "// `tick` ""quote"" 'q'
+root packet uint8x {@leftPad	() matchKey@lengthOf(repeatCount ),
+    // @lengthOf(
+    @tag( 10 ) zchar[ 65535 ] u
+    , char[]
+x_y_z ,char[] /// triple
+tag @calculatedFrom( ""a\""b"") ,
+@tag(	65535)
+@calculatedFrom(
+""a	b"" // 50% %s
+)
+    @calculatedFrom( ""`tick`""
+) body @lengthOf(
+    falsey ) //	t
+``, @calculatedFrom(	""" ++ [28040; 24687]%N ++ runes_of_ascii """
+    // `tick` ""quote"" 'q'
+    )  @calculatedFrom( ""a\""b"")
+Pad , u16
+matchKey
+    /// triple
+    , }")).
+Eval vm_compute in ("<<<M1609>>>" ++ check (runes_of_ascii "  packet 
+NewOrder{
+u32
+    qty
+,} 
+packet	Cancel
+    {
+
+u64
+
+    id , }
+packet 
+Business
+
+{
+u8
+
+Kind ,
+    match Kind	as
+
+Detail
+
+{ 1
+:
+NewOrder
+, 2
+: 
+Cancel , }
+, } 
+packet
+    TcpFrame
+{
+u8
+	T , match
+T
+
+as Body
+
+    { 
+1	:
+	Business
+
+    ,  } , }	packet
+
+UdpFrame
+{u8
+U ,	match
+U as Body{  1
+
     :
 
-A,
-
-    } ,	match
-
-K2
-as M2  {
-1:B ,
-    }
+Business
     ,}
+    , Business extra
+,	}
+root packet
+    Wire {
+
+TcpFrame
+
+    , UdpFrame
+,
+
+    }
 ")).
-Eval vm_compute in ("<<<M1827>>>" ++ check (runes_of_ascii "root packet _x {
-    uint32 trueish @calculatedFrom(""1"") `crlf
-    line`,
+Eval vm_compute in ("<<<M1662>>>" ++ check (runes_of_ascii "packet int {
+    uint16 BodyLength,
+    zchar[255] charz `100% of %d`,
+    Logon @lengthOf(MetaDataX),
 }
 
-//
+packet a1 {
+    match pack as msg_type {
+        10 : float,
+        """ ++ [233]%N ++ runes_of_ascii "t" ++ [233]%N ++ runes_of_ascii """ : charz,
+        4294967296 : Foo,
+        """ ++ [233]%N ++ runes_of_ascii "t" ++ [233]%N ++ runes_of_ascii """ : u128,
+    },
+    repeat Pad {
+        repeat Foo {
+            uint64 Header,
+            repeat roots rootA `say ""hi""`,
+        },
+    },
+}
+
 packet Header {
-    repeat u64 stringy `// not a comment`,
-    float32 msg_type,
 }")).
-Eval vm_compute in ("<<<M441>>>" ++ check (runes_of_ascii "packet uint8x
-{ match pack
-    as msg_type	{
-    0123456789 :	float float
-}
-,
-} packet //	t
-a1
-    { } options {packetx
-    = '\x00'	; u128= ""a	b""  ; }
-")).
-Eval vm_compute in ("<<<M436>>>" ++ check (runes_of_ascii "packet uint8x
-{ match pack
-    as msg_type	{
-    0123456789 : :	float
-}
-,
-} packet //	t
-a1
-    { } options {packetx
-    = '\x00'	; u128= ""a	b""  ; }
-")).
-Eval vm_compute in ("<<<M1475>>>" ++ check (runes_of_ascii "
-
-  // top
-
-packet // c0
-  body // c1
-{ // c2
-i32	// c3
-  f32a  // c4
-    	`{ , }`  // c5
-,  // c6
-  }	// c7
-options  // c8
-  {	// c9
-  } // c10
-")).
-Eval vm_compute in ("<<<M522>>>" ++ check (runes_of_ascii "packet uint8x
-{ match pack
-    as msg_type	{
-    0123456789 :	float
-}
-,
-} packet //	t
-a1
-    { } options {packetx
-    = '\x00'	; u128= ;  ""a	b"" }
-")).
-Eval vm_compute in ("<<<M700>>>" ++ check (runes_of_ascii "// @lengthOf(
-packet i8i8 { u128 o , }
-options { MetaDataX = true true;
-    BodyLength =""packet"" x_y_z= 007
-crc //x
-= ""abc"" ;
-    msg_type =
-i16 }")).
-Eval vm_compute in ("<<<M696>>>" ++ check (runes_of_ascii "// @lengthOf(
-packet i8i8 { u128 o , } }
-options { MetaDataX = true;
-    BodyLength =""packet"" x_y_z= 007
-crc //x
-= ""abc"" ;
-    msg_type =
-i16 }")).
-Eval vm_compute in ("<<<M721>>>" ++ check (runes_of_ascii "// @lengthOf(
-packet i8i8 { u128 o , }
-options { MetaDataX = true;
-    BodyLength =""packet"" x_y_z= 007
-crc //x
-= ""abc"" msg_type
-    ; =
-i16 }")).
-Eval vm_compute in ("<<<M1263>>>" ++ check (runes_of_ascii "
-packet B {u8 
-a ,
-}  root	packet P
-{
-
-    u8
-K, 
-u64	L
-@lengthOf(
-
-Body
-)	, match
-    K
-as
-
-    Body
-{ 1
-
-    : 
-B
-
-,
-}	, }
-
-")).
-Eval vm_compute in ("<<<M1266>>>" ++ check (runes_of_ascii "  packet B
-    {
-u8 a
-	,
-    } 
-root  packet
-
-P {
-u8
-    K  ,
-	match
-    K as Body
-
-{
-1
-
-:  B,
-}  ,
-	u16	L@lengthOf(	Body
-
-) ,
-	}
-")).
-Eval vm_compute in ("<<<M1699>>>" ++ check (runes_of_ascii "root packet lengthOf {
+Eval vm_compute in ("<<<M1448>>>" ++ check (runes_of_ascii "packet string_ {
+    @tag(4294967296)
+    repeat u `crlf
+    line`,
+    repeat zchar[0] BodyLength,
+    @tag(255)
+    int `say ""hi""`,
+    uint8x `u8 x,`,
     @leftPad(' ')
-    repeat char MetaDataX,
+    string MetaDataX @lengthOf(options1),
+    zchar[00] charz `" ++ [28040; 24687; 31867; 22411]%N ++ runes_of_ascii "`,
+    @calculatedFrom(""" ++ [128512]%N ++ runes_of_ascii """)
+    _x calculatedFrom,
+    uint8 packetx `it's`,
+    @leftPad()
+    zchar[0] Foo `a\`,
+}")).
+Eval vm_compute in ("<<<M1442>>>" ++ check (runes_of_ascii "// top
+MetaData x {
+    // c2
+    f32a Pad ``,// c6a
+    // c6b
 }
 
-MetaData Pad {
-    msg_type rootA `// not a comment`,
-}")).
-Eval vm_compute in ("<<<M970>>>" ++ check (runes_of_ascii "packet A {
-    match k as n {
-        ""x\
-y"" : B,
-        [""x\
-y"", 1] : C,
-        [1,2,3,4,5,""x\
-y""] : D,
-    },
-}")).
-Eval vm_compute in ("<<<M1173>>>" ++ check (runes_of_ascii "MetaData leftPad { chars MetaDataX , } packet repeatCount { char[ 255 ] uint8x `" ++ [233]%N ++ runes_of_ascii "` , // c
-} MetaData pack { As Foo , }")).
-Eval vm_compute in ("<<<M346>>>" ++ check (runes_of_ascii "MetaData chars {
-x_y_z
-/// triple
-/// triple
-x
-    `line1
-line2` ,_x A`// not a comment`,	} // `tick` ""quote"" 'q'")).
-Eval vm_compute in ("<<<M911>>>" ++ check (runes_of_ascii "packet A {
-  match k as n {
-    [""a"", 22, ""c c"", 4, ""e"", 66, ""g"", 8, ""i"", 10, ""k"", 12] : B
-    2 : C
-  },
-}")).
-Eval vm_compute in ("<<<M683>>>" ++ check (runes_of_ascii "// @lengthOf(
-packet i8i8 { u128 o , }
-options { MetaDataX = true;
-    BodyLength =""packet"" x_y_z= 007")).
-Eval vm_compute in ("<<<M854>>>" ++ check (runes_of_ascii "packet A {
-  match k as n {
-    [""a"", ""bb"", ""c c"", ""d"", ""e"", ""f"", ""g"", ""h""] : B,
-    2 : C
-  },
-}")).
-Eval vm_compute in ("<<<M886>>>" ++ check (runes_of_ascii "packet A {
-  match k as n {
-    [1, 22, ""c c"", 4, 5, ""f"", 7, 8, ""i"", 10] : B,
-    2 : C
-  },
-}")).
-Eval vm_compute in ("<<<M608>>>" ++ check (runes_of_ascii "
-packet
-    asx {match u128 as lengthOf
-{
-//	t
-// `tick` ""quote"" 'q'
-255 : x , ,
-    } ,	}")).
-Eval vm_compute in ("<<<M569>>>" ++ check (runes_of_ascii "
-packet
-    asx {u128 match as lengthOf
-{
-//	t
-// `tick` ""quote"" 'q'
-255 : x ,
-    } ,	}")).
-Eval vm_compute in ("<<<M1851>>>" ++ check (runes_of_ascii "packet A {
-    match k as n {
-        [""a"", ""bb"", 007, ""d""] : B,
-        2 : C,
-    },
-}")).
-Eval vm_compute in ("<<<M556>>>" ++ check (runes_of_ascii "
+// c7
+packet leftPad {
+    // c10a
+    // c10b
+    repeat int64 crc,// c14a
+    // c14b
+    BodyLength {
+        // c16
+        uint8 pack `say ""hi""`,
+        // c20
+        lengthOf @lengthOf(asx) `" ++ [28040; 24687; 31867; 22411]%N ++ runes_of_ascii "`,
+        // c26
+    },// c28
+}// c29a
+// c29b")).
+Eval vm_compute in ("<<<M1843>>>" ++ check (runes_of_ascii "root  packet
+
+_x { 
+uint32 	 //	t
+	trueish
+	@calculatedFrom(""1""
+	)
+    `tab	here` 
 ,
-    asx {match u128 as lengthOf
-{
-//	t
+	}
+
+    packet 
+Header {	repeat
+    u64  stringy `u8 x,`
+,
+float32
+
+    msg_type, repeat
+x_y_z  crc
+
+`two words`
+
+    ,
+
+    zchar[// c
+    007
+    ]
+Packet,
+	string  asx
+	`say ""hi""` 
+, }
+
+")).
+Eval vm_compute in ("<<<M1723>>>" ++ check (runes_of_ascii "// top
+options {
+    // c1
+    f32a = 0
+    // c4
+}
+
+// c5
+packet trueish {
+    // c8
+}
+
+// c9
+MetaData _x {
+    // c12
+    char[0123456789] zchar,
+    // c17
+    string crc,
+    // c20
+    char[1] options1,
+    // c25
+    uint8 repeatCount,
+    // c28
+}
+// c29")).
+Eval vm_compute in ("<<<M1880>>>" ++ check (runes_of_ascii "MetaData calculatedFrom {
+    /// triple
+    matchKey packetx,
+    float32 u128,// `tick` ""quote"" 'q'
+}
+
+MetaData uint8x {
+    //	t
+    zchar[65535] As ``,
+    char[255] T `doc`,
+    zchar[255] int,
+    float64 i64_ `tab	here`,
+    char[] len,
+}")).
+Eval vm_compute in ("<<<M530>>>" ++ check (runes_of_ascii "packet
+    ~ asx { @calculatedFrom(
+""""  ) @tag( 255 )repeat
+// packet A { u8 x, }
+// trailing space 
+int16 u8x
+,
+@tag(
+    //
+    007 )
+    @tag( 0
+    /// triple
+    ) @tag( 1) u
+    @lengthOf( T ),
 // `tick` ""quote"" 'q'
-255 : x ,
-    } ,	}")).
-Eval vm_compute in ("<<<M1305>>>" ++ check (runes_of_ascii "packet orderItem {
+//x
+} // " ++ [128512]%N ++ runes_of_ascii " emoji")).
+Eval vm_compute in ("<<<M454>>>" ++ check (runes_of_ascii "packet
+    asx { @calculatedFrom(
+""""  ) @tag( 255 )repeat
+// packet A { u8 x, }
+// trailing space 
+int16 u8x
+,
+uint8
+    //
+    007 )
+    @tag( 0
+    /// triple
+    ) @tag( 1) u
+    @lengthOf( T ),
+// `tick` ""quote"" 'q'
+//x
+} // " ++ [128512]%N ++ runes_of_ascii " emoji")).
+Eval vm_compute in ("<<<M496>>>" ++ check (runes_of_ascii "packet
+    asx { @calculatedFrom(
+""""  ) @tag( 255 )repeat
+// packet A { u8 x, }
+// trailing space 
+int16 u8x
+,
+@tag(
+    //
+    007 )
+    @tag( 0
+    /// triple
+    ) @tag( 1) 
+    @lengthOf( T ),
+// `tick` ""quote"" 'q'
+//x
+} // " ++ [128512]%N ++ runes_of_ascii " emoji")).
+Eval vm_compute in ("<<<M323>>>" ++ check (runes_of_ascii "
+root
+packet int{ @tag( 0) @tag( 007 )
+@tag( 255
+) match i8i8 as
+//	t
+// 50% %s
+_x { ""\" ++ [233]%N ++ runes_of_ascii """ : //
+i64_ 42 :
+    asx , 0123456789:Logon 65535 // `tick` ""quote"" 'q'
+:  calculatedFrom ,""" ++ [233]%N ++ runes_of_ascii "t" ++ [233]%N ++ runes_of_ascii """ // c
+:u
+    },
+    /// triple
+    }
+")).
+Eval vm_compute in ("<<<M1548>>>" ++ check (runes_of_ascii "MetaData trueish {
+    string u,
+    // @lengthOf(
+    //x
+    pack Pad `say ""hi""`,// a // b
+    int32 tag,
+    u8 asx,// 50% %s
+    i32 len,
+    int int `100% of %d`,
+}
+
+MetaData falsey {
+}
+// @lengthOf(")).
+Eval vm_compute in ("<<<M1343>>>" ++ check (runes_of_ascii "packet u128 {
     u8 a,
 }
-root packet newOrder {
-    orderItem,
+root packet Msg {
+    u8 k,
+    u24 {
+        u8 Hi,
+        u16 Lo,
+    },
+    repeat i24 {
+        u32 q,
+    },
+    u128,
+    u16 float32x,
+    string s,
+}
+")).
+Eval vm_compute in ("<<<M567>>>" ++ check (runes_of_ascii "MetaData u
+    { } MetaData MetaData o
+{ float uint8x
+`100% of %d` ,repeatCount u8x, string_ leftPad
+, i32
+    Foo , int64 x `two words` , calculatedFrom
+stringy `a\` ,
+}
+")).
+Eval vm_compute in ("<<<M688>>>" ++ check (runes_of_ascii "MetaData u
+    { } MetaData o
+{ float uint8x
+`100% of %d` ,repeatCount u8x, string_ leftPad
+, i32
+    Foo , int64 x `two words` , calculatedFrom
+stringy `a\` ,
+char
+")).
+Eval vm_compute in ("<<<M695>>>" ++ check (runes_of_ascii "MetaData u
+    { } MetaData o
+{ float uint8x
+`100% of %d` ,re~peatCount u8x, string_ leftPad
+, i32
+    Foo , int64 x `two words` , calculatedFrom
+stringy `a\` ,
+}
+")).
+Eval vm_compute in ("<<<M643>>>" ++ check (runes_of_ascii "MetaData u
+    { } MetaData o
+{ float uint8x
+`100% of %d` ,repeatCount u8x, string_ leftPad
+, i32
+    Foo int64 , x `two words` , calculatedFrom
+stringy `a\` ,
+}
+")).
+Eval vm_compute in ("<<<M634>>>" ++ check (runes_of_ascii "MetaData u
+    { } MetaData o
+{ float uint8x
+`100% of %d` ,repeatCount u8x, string_ leftPad
+, =
+    Foo , int64 x `two words` , calculatedFrom
+stringy `a\` ,
+}
+")).
+Eval vm_compute in ("<<<M352>>>" ++ check (runes_of_ascii "MetaData crc
+    // " ++ [128512]%N ++ runes_of_ascii " emoji
+    { packetx repeatCount  ,
+    f32a As //x
+`line1
+line2`, crc len `line1
+line2` , zchar[ 0123456789 ] uint8x , zchar[0 ]As, }
+")).
+Eval vm_compute in ("<<<M1556>>>" ++ check (runes_of_ascii "packet crc {
+    repeat Foo A,
+    @lengthOf(uint8x)
+    string matchKey @lengthOf(stringy) `a\`,
+    // c
+}
+
+MetaData chars {
+    leftPad crc `" ++ [233]%N ++ runes_of_ascii "`,
+}")).
+Eval vm_compute in ("<<<M1797>>>" ++ check (runes_of_ascii "// top
+packet Inner {
+    // c2
+    u8 a,
+    // c5
+}
+
+// c6
+root packet P {
+    // c10a
+    // c10b
+    Inner ref_obj,
+    u8 x,
+}// c17")).
+Eval vm_compute in ("<<<M1540>>>" ++ check (runes_of_ascii "
+
+  options {
+	}
+
+options{	MetaDataX	=
+char	;
+}	MetaData	Pad {i8
+	metadata
+
+    , 
+string stringy ,
+	int8
+As
+	`{ , }` ,// c
+}
+")).
+Eval vm_compute in ("<<<M1940>>>" ++ check (runes_of_ascii "packet B {
+    u8 a,
+}
+
+root packet P {
+    u8 K,
+    match K as Body {
+        1 : B,
+    },
+    u16 L @lengthOf(Body),
+}")).
+Eval vm_compute in ("<<<M1968>>>" ++ check (runes_of_ascii "packet A {
+    u16 len @lengthOf(body) `x
+    `,
+    u32 crc @calculatedFrom(""CRC32"") `x
+    `,
+    string body,
+}")).
+Eval vm_compute in ("<<<M1232>>>" ++ check (runes_of_ascii "options { } options { MetaDataX = char ; } MetaData Pad { i8 metadata
+// c
+, string stringy , int8 As `{ , }` , }")).
+Eval vm_compute in ("<<<M1901>>>" ++ check (runes_of_ascii "options {
+    LittleEndian = true;
+}
+
+root packet P {
+    u16 a,
+    u32 Sum @calculatedFrom(""CR\
+    C32""),
+}")).
+Eval vm_compute in ("<<<M373>>>" ++ check (runes_of_ascii "
+MetaData //x
+o {
+i8
+    lengthOf `two words` , msg_type MetaDataX ``
+, /// triple
+u32 int `a\` , }")).
+Eval vm_compute in ("<<<M1280>>>" ++ check (runes_of_ascii "  packet 
+B  {
+u8 a  , string  s ,
+} root packet P
+	{	u16
+L@lengthOf(
+
+    B
+),B 
+,	u8
+
+t
+
+,
+
+}")).
+Eval vm_compute in ("<<<M869>>>" ++ check (runes_of_ascii "packet A {
+  match k as n {
+    [""a"", 22, ""c c"", 4, ""e"", 66, ""g"", 8, ""i""] : B,
+    2 : C
+  },
+}")).
+Eval vm_compute in ("<<<M249>>>" ++ check (runes_of_ascii "MetaData charz
+{
+    pack MetaDataX
+    , falsey crc  , u32
+    u `// not a comment`
+,}
+")).
+Eval vm_compute in ("<<<M844>>>" ++ check (runes_of_ascii "packet A {
+  match k as n {
+    [""a"", 22, ""c c"", 4, ""e"", 66, ""g""] : B
+    2 : C
+  },
+}")).
+Eval vm_compute in ("<<<M527>>>" ++ check (runes_of_ascii "packet
+    asx { @calculatedFrom(
+""""  ) @tag( 255 )repeat
+// packet A { u8 x, }
+/")).
+Eval vm_compute in ("<<<M1263>>>" ++ check (runes_of_ascii "packet Inner {
+    u8 a,
+}
+root packet P {
+    repeat Inner items,
     u8 x,
 }
 ")).
-Eval vm_compute in ("<<<M802>>>" ++ check (runes_of_ascii "packet A {
+Eval vm_compute in ("<<<M809>>>" ++ check (runes_of_ascii "packet A {
   match k as n {
-    [""a"", ""bb"", ""c c"", ""d""] : B,
+    [""a"", ""bb"", 007, ""d""] : B
     2 : C
   },
 }")).
-Eval vm_compute in ("<<<M1553>>>" ++ check (runes_of_ascii "
-
-  packet 
-body	{i32
-
-    f32a
-
-`{ , }`
-    ,} 
-
-    // c
-options {} ")).
-Eval vm_compute in ("<<<M801>>>" ++ check (runes_of_ascii "packet A {
-  match k as n {
-    [1, 22, 007, 4] : B
-    2 : C
-  },
+Eval vm_compute in ("<<<M79>>>" ++ check (runes_of_ascii "root  packet Packet {
+match
+    f32a	as Foo// " ++ [27880; 37322]%N ++ runes_of_ascii "
+{
+1 :
+    tag ,	} ,
 }")).
-Eval vm_compute in ("<<<M534>>>" ++ check (runes_of_ascii "packet uint8x
-{ match pack
-    as msg_type	{
-    0123456789 :	")).
-Eval vm_compute in ("<<<M751>>>" ++ check (runes_of_ascii "options @calculatedFrom( repeat } [ @tag( uint32 char[] ] :")).
-Eval vm_compute in ("<<<M1245>>>" ++ check (runes_of_ascii "root
-    packet	P
-{repeat
+Eval vm_compute in ("<<<M940>>>" ++ check (runes_of_ascii "packet A {
+    B b `a
 
-char 
-cs  ,u8
+b`,
+    B `a
 
-    x ,} ")).
-Eval vm_compute in ("<<<M1213>>>" ++ check (runes_of_ascii "packet body { i32 f32a `{ , }` , } // c
-options { }")).
-Eval vm_compute in ("<<<M7>>>" ++ check (runes_of_ascii "options {  metadata = ""a\\""// @lengthOf(
-;}
-")).
-Eval vm_compute in ("<<<M940>>>" ++ check (runes_of_ascii "root packet A {
+b`,
+    repeat B bs `a
+
+b`,
+}")).
+Eval vm_compute in ("<<<M937>>>" ++ check (runes_of_ascii "MetaData M {
     u8 x `a
     b
   c`,
+    T t `a
+    b
+  c`,
 }")).
-Eval vm_compute in ("<<<M1522>>>" ++ check (runes_of_ascii "options {
-    T = '0';
-    A = u8;
-}")).
-Eval vm_compute in ("<<<M952>>>" ++ check (runes_of_ascii "root packet A {
-    u8 x `x
-`,
-}")).
-Eval vm_compute in ("<<<M998>>>" ++ check (runes_of_ascii "packet A {
- u8 x `d" ++ [5760]%N ++ runes_of_ascii "`, // c" ++ [5760]%N ++ runes_of_ascii "
-}")).
-Eval vm_compute in ("<<<M947>>>" ++ check (runes_of_ascii "packet A {
-    u8 x `x
-`,
-}")).
-Eval vm_compute in ("<<<M1495>>>" ++ check (runes_of_ascii "  packet 
-A	{	}// c" ++ [65279]%N ++ runes_of_ascii "
- 
-")).
-Eval vm_compute in ("<<<M1721>>>" ++ check (runes_of_ascii "packet x {
-    // c
-}")).
-Eval vm_compute in ("<<<M976>>>" ++ check (runes_of_ascii "packet A {
-}
-// c ")).
-Eval vm_compute in ("<<<M1057>>>" ++ check (runes_of_ascii "// c" ++ [6158]%N ++ runes_of_ascii "
-packet A {
-}")).
-Eval vm_compute in ("<<<M1227>>>" ++ check (runes_of_ascii "packet
-// c
-x { }")).
-Eval vm_compute in ("<<<M3>>>" ++ check (runes_of_ascii "options {}
+Eval vm_compute in ("<<<M1107>>>" ++ check (runes_of_ascii "packet A { @tag(1) // a
+ @leftPad('0') // b
+ char[4] x, }")).
+Eval vm_compute in ("<<<M1098>>>" ++ check (runes_of_ascii "packet A { u8 x, } // a
+// b
+packet B {} // c
+// d")).
+Eval vm_compute in ("<<<M1573>>>" ++ check (runes_of_ascii "  MetaData  rootA
+
+    {options1
+a1 ,
+	}
 
 ")).
-Eval vm_compute in ("<<<M1015>>>" ++ check (runes_of_ascii "// c" ++ [8233]%N)).
-Eval vm_compute in ("<<<M72>>>" ++ check (@nil rune)).
+Eval vm_compute in ("<<<M1704>>>" ++ check (runes_of_ascii "root packet P {
+    char c,
+    u8 x,
+}")).
+Eval vm_compute in ("<<<M1183>>>" ++ check (runes_of_ascii "options // c
+{ A = ""// no comment"" }")).
+Eval vm_compute in ("<<<M1109>>>" ++ check (runes_of_ascii "packet A { @tag( // a
+ 1 ) u8 x, }")).
+Eval vm_compute in ("<<<M745>>>" ++ check (runes_of_ascii "as u8 char float64 u16 : uint64")).
+Eval vm_compute in ("<<<M1457>>>" ++ check (runes_of_ascii "MetaData  tag
+	{
+	// c
+		} ")).
+Eval vm_compute in ("<<<M1926>>>" ++ check (runes_of_ascii "  // c" ++ [8239]%N ++ runes_of_ascii "
+  packet A
+{  }
+
+")).
+Eval vm_compute in ("<<<M1130>>>" ++ check (runes_of_ascii "MetaData tag { } // c
+")).
+Eval vm_compute in ("<<<M1005>>>" ++ check (runes_of_ascii "packet A {
+}
+// c" ++ [160]%N)).
+Eval vm_compute in ("<<<M1166>>>" ++ check (runes_of_ascii "
+// c
+packet x { }")).
+Eval vm_compute in ("<<<M1873>>>" ++ check (runes_of_ascii "packet x {
+}
+// c")).
+Eval vm_compute in ("<<<M764>>>" ++ check (runes_of_ascii "Ldg$cJ:9=")).
+Eval vm_compute in ("<<<M170>>>" ++ check (runes_of_ascii " 	 ")).
